@@ -78,6 +78,12 @@ def probe_pairs():
 MANY_UNITS = [[335, 334], [340, 336], [340, 339], [350, 1000], [400, 360]]
 
 
+# each of these runs ALONE in a pristine interpreter (cold memo tables, default recursion limit):
+# the memoised planner recurses about two frames per unit, and an earlier smaller schedule in the
+# same process would pre-fill part of the chain
+COLD_PAIRS = [[340, 336], [352, 350], [420, 415], [455, 450]]
+
+
 def seq_probe(payload):
     """Runs in a pristine interpreter (vlib.pristine): the pairs in order, in one process."""
     out = []
@@ -171,8 +177,18 @@ def run(prop, args):
     known = set(jobs)
     jobs = jobs + [j for j in sorted(set(cand[:400]) | set(gen)) if j not in known]
     probe = R.pristine_start("vlib.props.c06.seq_probe", {"pairs": probe_pairs()})
+    cold = [(pr, R.pristine_start("vlib.props.c06.seq_probe", {"pairs": [pr]})) for pr in COLD_PAIRS]
     res = R.pmap(_pair, jobs)
     pres = R.pristine_wait(probe)
+    for pr, h in cold:
+        o = R.pristine_wait(h)[0]
+        rep.evaluations += 2
+        rep.count("regions", "cold-many-units")
+        seen = set()
+        for pred, cfg, detail in o["viol"]:
+            if pred not in seen:
+                seen.add(pred)
+                rep.add_violation(("Mixed", pred), {"sequence": [pr]}, detail + " [alone in a fresh interpreter]", kind="sequence")
     rep.extra["boundary_probe_sequence"] = {"pairs": len(pres), "n": list(PROBE_N), "s": list(PROBE_S)}
     seqfail = {}
     for i, o in enumerate(pres):
@@ -209,6 +225,9 @@ def run(prop, args):
         if "sequence" in w:
             seq = w["sequence"]
             last = seq[-1]
+            if len(seq) == 1:
+                d = [d for p, _, d in R.pristine_call("vlib.props.c06.seq_probe", {"pairs": seq})[-1]["viol"] if p == b[1]]
+                return (w, d[0] + " [alone in a fresh interpreter]") if d else None
             alone = R.pristine_call("vlib.props.c06.seq_probe", {"pairs": [last]})
             if any(p == b[1] for p, _, _ in alone[-1]["viol"]):
                 return None if False else ({"cls": "Mixed", "n": last[0], "s": last[1], "storage": "RAM", "passes": 1}, [d for p, _, d in alone[-1]["viol"] if p == b[1]][0])
